@@ -3,6 +3,6 @@
 cd /verif
 for d in seeded/*/; do
   id=$(basename $d); prop=$(python3 -c "import json;print(json.load(open('$d/meta.json'))['property'])")
-  SKIP_TESTS=1 tools/sens.sh $id $prop quick > /tmp/sens_$id.out 2>&1; rc=$?
+  SKIP_TESTS=1 VERIF_NO_SHRINK=1 tools/sens.sh $id $prop quick > /tmp/sens_$id.out 2>&1; rc=$?
   echo "$id $prop exit=$rc $(grep -c '^VIOLATION' /tmp/sens_$id.out) violation line(s)"
 done
